@@ -943,11 +943,11 @@ impl BRC20ProgEngine {
         block_hash: B256,
         is_full: bool,
     ) -> Result<Option<BlockResponseED>, Box<dyn Error>> {
-        self.db.read_fn(|db| {
-            db.get_block_number(block_hash)?
-                .map_or(Ok(None), |block_number| {
-                    self.get_block_by_number(block_number.into(), is_full)
-                })
+        // Look the number up and release the lock before get_block_by_number takes it again:
+        // a read lock must not be re-acquired while held (a queued writer would block it forever)
+        let block_number = self.db.read_fn(|db| db.get_block_number(block_hash))?;
+        block_number.map_or(Ok(None), |block_number| {
+            self.get_block_by_number(block_number.into(), is_full)
         })
     }
 
